@@ -4,10 +4,11 @@
 set -uo pipefail
 prop=$1; shift
 checks=${@:-$prop}
-for o in /tmp/seed/$prop/out/*/; do
+ROOT=${SEEDROOT:-/tmp/seed}; TAG=${SEEDTAG:-}
+for o in $ROOT/$prop/out/*/; do
   m=$(basename $o)
   [ -f $o/patch.diff ] || continue
-  conf=$(grep "^$prop $m:" /tmp/seed/confirm_all.log | tail -1)
+  conf=$(grep "^$prop $m:" $ROOT/confirm_all.log | tail -1)
   case "$conf" in
     *"demo_without_rc=0 demo_with_rc="[1-9]*" other_failed_tests=0"*) ;;
     *) echo "$prop $m NOT CONFIRMED: $conf"; continue;;
@@ -16,5 +17,5 @@ for o in /tmp/seed/$prop/out/*/; do
   echo "$prop $m: $res" | cut -c1-600
   status=missed; echo "$res" | grep -q "^CAUGHT" && status=caught
   needs=$(grep -i -A6 "needed\|manifest" $o/notes.md | head -8 | tr '\n' ' ' | cut -c1-500)
-  python3 /verif/tools/seed_keep.py $o $prop-$m $prop $status "$(echo "$res" | head -3 | cut -c1-400)" -- "$needs" > /dev/null
+  python3 /verif/tools/seed_keep.py $o $prop-$TAG$m $prop $status "$(echo "$res" | head -3 | cut -c1-400)" -- "$needs" > /dev/null
 done
